@@ -1,14 +1,85 @@
-(* Props/C12.v -- placeholder until the parser proofs land: entry points agree definitionally. *)
-From JsonSyntax Require Import Base.Prelude Base.Value Base.Unicode Model.Parser Model.EntryPoints.
+(* Props/C12.v -- lenient options: a conservative extension relaxing only surrogate escapes.
+   Statements only.  Specification: the annotated grammar `jv o` of Spec/Grammar.v, whose
+   string rule `decode o` admits an unpaired high unit only with o.trunc and a lone low unit
+   only with o.inval, each denoting exactly one U+FFFD; a high unit immediately followed by
+   a low unit always combines. *)
+From JsonSyntax Require Import Base.Prelude Base.Value Base.Unicode Base.Source Model.Parser Model.EntryPoints
+  Spec.Grammar Proofs.ParserSpec Proofs.LenientOptions.
 
-Theorem C12_entry_points_text : forall cs,
-  parse_str cs = parse_str_with strict cs /\
-  parse_str cs = parse_utf8 cs /\
-  parse_str cs = parse_utf8_with strict cs /\
-  parse_str cs = parse_infallible_utf8 cs /\
-  parse_str cs = parse_utf8_infallible_with strict cs /\
-  parse_str cs = parse (chars cs) /\
-  parse_str cs = parse_with strict (chars cs).
-Proof. exact (fun cs => conj eq_refl (conj eq_refl (conj eq_refl (conj eq_refl (conj eq_refl (conj eq_refl eq_refl)))))). Qed.
+(* the parser implements `jv o` for each of the four option records *)
+Theorem C12_parse_spec : forall o cs v m,
+  Forall (fun c => c <= 0x10FFFF) cs ->
+  (parse_str_with o cs = Ok (v, m) <-> jtext o (text_items cs) v m).
+Proof. exact parse_str_spec. Qed.
 
-Print Assumptions C12_entry_points_text.
+(* conservativity: whatever strict mode accepts is returned unchanged -- value AND code map --
+   under every option record *)
+Theorem C12_conservative : forall o cs r,
+  parse_str_with strict cs = Ok r -> Forall (fun c => c <= 0x10FFFF) cs -> parse_str_with o cs = Ok r.
+Proof. exact LenientOptions.C12_conservative. Qed.
+Theorem C12_grammar_mono : forall o s v m, jtext strict s v m -> jtext o s v m.
+Proof. exact jtext_mono. Qed.
+
+(* no leak: a leniently accepted text is a strictly valid text of the same length in which
+   only \u escapes have been respelt (by \uFFFD); it denotes the same value and code map *)
+Theorem C12_no_leak : forall o t v m, jv o t v m ->
+  exists t', jv strict t' v m /\ blen t' = blen t /\ length t' = length t.
+Proof. exact LenientOptions.C12_no_leak. Qed.
+Theorem C12_no_leak_parser : forall o cs v m,
+  Forall (fun c => c <= 0x10FFFF) cs -> parse_str_with o cs = Ok (v, m) ->
+  exists cs', parse_str_with strict cs' = Ok (v, m) /\ length cs' = length cs.
+Proof. exact LenientOptions.C12_no_leak_parser. Qed.
+
+(* the repair touches only surrogate \u escapes, one element for one element, and the
+   repaired sequence decodes strictly to the same characters: each replaced escape is
+   exactly one U+FFFD *)
+Theorem C12_decode_repair : forall o els s,
+  decode o els = Some s -> decode strict (repair_elems o els) = Some s.
+Proof. exact decode_repair. Qed.
+Theorem C12_replaced_escape_is_one_fffd : forall o els,
+  length (repair_elems o els) = length els /\
+  forall i, nth_error (repair_elems o els) i = nth_error els i \/
+            (exists u, nth_error els i = Some (U16 u) /\ is_surrogate u = true /\
+                       nth_error (repair_elems o els) i = Some (U16 0xFFFD)).
+Proof. exact replaced_escape_is_one_fffd. Qed.
+
+(* independence: without trunc no high unit is ever replaced whatever inval says; without
+   inval no low unit is ever replaced whatever trunc says; with both off nothing is *)
+Theorem C12_trunc_off : forall i els n u,
+  nth_error els n = Some (U16 u) -> is_high u = true ->
+  nth_error (repair_elems {| trunc := false; inval := i |} els) n = Some (U16 u).
+Proof. exact repair_trunc_off. Qed.
+Theorem C12_inval_off : forall t els n u,
+  nth_error els n = Some (U16 u) -> is_low u = true ->
+  nth_error (repair_elems {| trunc := t; inval := false |} els) n = Some (U16 u).
+Proof. exact repair_inval_off. Qed.
+Theorem C12_strict_repairs_nothing : forall o els,
+  trunc o = false -> inval o = false -> repair_elems o els = els.
+Proof. exact repair_only_when_enabled. Qed.
+
+(* correctly paired surrogates still combine, and the former defect G stays repaired *)
+Example C12_pairs_still_combine :
+  decode flexible [U16 0xD83D; U16 0xDE00] = Some [0x1F600] /\
+  decode flexible [U16 0xD800; U16 0xD83D; U16 0xDE00] = Some [0xFFFD; 0x1F600] /\
+  decode {| trunc := true; inval := false |} [U16 0xD800; U16 0xD800] = Some [0xFFFD; 0xFFFD] /\
+  decode {| trunc := true; inval := false |} [U16 0xDC00] = None /\
+  decode {| trunc := false; inval := true |} [U16 0xDC00] = Some [0xFFFD] /\
+  decode {| trunc := false; inval := true |} [U16 0xD800] = None.
+Proof. exact pairs_still_combine. Qed.
+Example C12_no_leak_example :
+  parse_str_with flexible (s2l "[""\uD800x\uDC00""]") = parse_str_with strict (s2l "[""\uFFFDx\uFFFD""]") /\
+  exists m, parse_str_with flexible (s2l "[""\uD800x\uDC00""]") = Ok (VArr [VStr [0xFFFD; 0x78; 0xFFFD]], m).
+Proof. exact no_leak_example. Qed.
+
+Print Assumptions C12_parse_spec.
+Print Assumptions C12_conservative.
+Print Assumptions C12_grammar_mono.
+Print Assumptions C12_no_leak.
+Print Assumptions C12_no_leak_parser.
+Print Assumptions C12_decode_repair.
+Print Assumptions C12_replaced_escape_is_one_fffd.
+Print Assumptions C12_trunc_off.
+Print Assumptions C12_inval_off.
+Print Assumptions C12_strict_repairs_nothing.
+Print Assumptions C12_pairs_still_combine.
+Print Assumptions C12_no_leak_example.
